@@ -1108,6 +1108,25 @@ func (c *Ctx) secretEntropy(rule string) {
 				break
 			}
 			g := loadOfGlobal(reader)
+			if g != nil && g.Pkg != nil && c.P.ByPath[g.Pkg.Pkg.Path()] != nil {
+				// an injectable source: a package-level reader of the repository that is
+				// initialised with crypto/rand.Reader
+				iv := GlobalInit(g)
+				for {
+					if mi, ok := iv.(*ssa.MakeInterface); ok {
+						iv = mi.X
+						continue
+					}
+					if ci, ok := iv.(*ssa.ChangeInterface); ok {
+						iv = ci.X
+						continue
+					}
+					break
+				}
+				if ig := loadOfGlobal(iv); ig != nil {
+					g = ig
+				}
+			}
 			if g == nil || g.Pkg == nil {
 				continue // reading a body, a file: not an entropy source
 			}
@@ -1129,7 +1148,158 @@ func (c *Ctx) secretEntropy(rule string) {
 			}
 		}
 	}
-	r.Check(n >= 8, rule, "all packages", "entropy reads", "-", sprintf("%d reads of crypto/rand", n), sprintf("expected at least 8 reads of crypto/rand in the packages that mint secrets, found %d", n))
+	r.Check(n >= 4, rule, "all packages", "entropy reads", "-", sprintf("%d reads of crypto/rand", n), sprintf("expected at least 4 reads of crypto/rand in the packages that mint secrets, found %d", n))
+}
+
+// utcInstants: every instant the library stores in a user record (lock time,
+// last attempt, recovery expiry) is taken in UTC: the argument of a Put* of a
+// time.Time on a user derives from time.Now() only through .UTC(). All the
+// library's own sites agree on this; a site that stores time.Now() with the
+// server's zone is shifted by the zone offset in every store that keeps the
+// wall-clock reading without a zone — links and locks then live hours longer
+// (or shorter) than configured.
+func (c *Ctx) utcInstants(rule string) {
+	r := c.R
+	n := 0
+	for _, fn := range c.P.Funcs {
+		if strings.HasSuffix(pkgOf(fn), "/mocks") {
+			continue
+		}
+		for _, call := range Calls(fn) {
+			cc := call.Common()
+			if !cc.IsInvoke() || !strings.HasPrefix(cc.Method.Name(), "Put") || len(cc.Args) != 1 || cc.Args[0].Type().String() != "time.Time" || !c.isUserType(cc.Value.Type()) {
+				continue
+			}
+			// walk back through instant arithmetic to where the instant comes from
+			v := cc.Args[0]
+			bad := ""
+			seen := map[ssa.Value]bool{}
+			var walk func(v ssa.Value, d int)
+			walk = func(v ssa.Value, d int) {
+				if d > 8 || seen[v] {
+					return
+				}
+				seen[v] = true
+				if phi, ok := v.(*ssa.Phi); ok {
+					for _, e := range phi.Edges {
+						walk(e, d+1)
+					}
+					return
+				}
+				ic, _ := CallOf(v)
+				if ic == nil {
+					return
+				}
+				switch Callee(ic) {
+				case "(time.Time).Add", "(time.Time).AddDate", "(time.Time).Truncate", "(time.Time).Round":
+					walk(Arg(ic, 0), d+1)
+				case "(time.Time).UTC":
+					// fine, whatever is below
+				case "time.Now":
+					bad = "time.Now() without .UTC()"
+				case "(time.Time).Local", "(time.Time).In":
+					bad = Callee(ic)
+				}
+			}
+			walk(v, 0)
+			n++
+			r.Check(bad == "", rule, FuncName(fn), cc.Method.Name()+"(instant)", posf(c, call), "stored in UTC", "the instant stored is "+bad+": it carries the server's zone, and a store that keeps the wall-clock reading without a zone shifts it by the zone offset")
+		}
+	}
+	r.Check(n >= 6, rule, "all packages", "stored instants", "-", sprintf("%d", n), sprintf("expected at least 6 stores of an instant in a user record, found %d", n))
+}
+
+// withExplanation runs a property's whole rule set as part of another
+// property without letting it replace that property's own description.
+func withExplanation(f func(*Ctx)) func(*Ctx) {
+	return func(c *Ctx) {
+		e, nd := c.R.Explanation, c.R.NotDecided
+		f(c)
+		c.R.Explanation, c.R.NotDecided = e, nd
+	}
+}
+
+// ctxParentIsRequest: a context that a handler installs on the request is
+// built on the request's own context. A handler that starts from
+// context.Background()/TODO() drops everything the middlewares in front of it
+// put there (layout data, the loaded client state, a request-scoped logger):
+// what is then rendered or logged depends on whether that handler ran, i.e. on
+// which branch of the flow the request took.
+func (c *Ctx) ctxParentIsRequest(rule string) {
+	r := c.R
+	n := 0
+	for _, fn := range c.P.Funcs {
+		if strings.HasSuffix(pkgOf(fn), "/mocks") {
+			continue
+		}
+		for _, call := range CallsTo(fn, "context.WithValue") {
+			// only contexts that end up on a request
+			onReq := false
+			if v := call.Value(); v != nil && v.Referrers() != nil {
+				for _, ref := range *v.Referrers() {
+					if rc, ok := ref.(ssa.CallInstruction); ok && Callee(rc) == "(*net/http.Request).WithContext" {
+						onReq = true
+					}
+				}
+			}
+			if !onReq {
+				continue
+			}
+			n++
+			parent := Arg(call, 0)
+			okP := false
+			for d := 0; d < 6; d++ {
+				pc, _ := CallOf(parent)
+				if pc == nil {
+					break
+				}
+				switch Callee(pc) {
+				case "(*net/http.Request).Context":
+					okP = true
+				case "context.WithValue", "context.WithCancel", "context.WithTimeout", "context.WithDeadline":
+					parent = Arg(pc, 0)
+					continue
+				}
+				break
+			}
+			if _, isParam := parent.(*ssa.Parameter); isParam {
+				okP = true // handed in by the caller
+			}
+			r.Check(okP, rule, FuncName(fn), "context.WithValue(parent, …)", posf(c, call), "parent is the request's context", "the context installed on the request is not derived from the request's own context ("+SafeString(Arg(call, 0))+"): everything earlier middlewares stored in it is lost for the rest of the request, on this branch only")
+		}
+	}
+	r.Check(n >= 10, rule, "all packages", "request contexts", "-", sprintf("%d", n), sprintf("expected at least 10 contexts installed on requests, found %d", n))
+}
+
+// beforeHandledHonoured: the "handled" answer of every FireBefore is looked
+// at. A Before handler that has answered the request (a veto, an application
+// hook that took the request over) ends it; a handler that goes on regardless
+// answers twice, and only for the accounts for which the hook fired.
+func (c *Ctx) beforeHandledHonoured(rule string) {
+	r := c.R
+	n := 0
+	for _, fn := range c.P.Funcs {
+		if strings.HasSuffix(pkgOf(fn), "/mocks") || pkgOf(fn) == "ab" {
+			continue
+		}
+		for _, f := range Fires(fn) {
+			if !f.Before {
+				continue
+			}
+			n++
+			used := false
+			if f.Handled != nil && f.Handled.Referrers() != nil {
+				for _, ref := range *f.Handled.Referrers() {
+					switch ref.(type) {
+					case *ssa.If, *ssa.Phi, *ssa.Return, *ssa.BinOp, *ssa.UnOp:
+						used = true
+					}
+				}
+			}
+			r.Check(used, rule, FuncName(fn), "FireBefore("+c.EventName(f.Event)+").handled", posf(c, f.Call), "looked at", "the handled result of the Before event is dropped: a handler that already answered the request does not end it")
+		}
+	}
+	r.Check(n >= 10, rule, "all packages", "FireBefore sites", "-", sprintf("%d", n), sprintf("expected at least 10 FireBefore sites, found %d", n))
 }
 
 // refusalConfigMapped: every module that protects its routes with the
